@@ -1,6 +1,8 @@
 """C07 - conversion is idempotent: picosvg in, identical picosvg out."""
 from __future__ import annotations
 
+import zlib
+
 from hypothesis import strategies as st
 
 from vlib.run import Result, Sub, open_finding_ids
@@ -164,6 +166,25 @@ def c07_case(draw):
             case["feat"] = case["feat"] + ["unsupported-in-opacity-group"]
         case["drop_unsupported"] = True
         case["feat"] = case["feat"] + ["unsupported"]
+    h = zlib.crc32(docs.serialize(root, root=True).encode())
+    if h % 5 == 0:
+        # a radial gradient whose off-centre focal point is moved exactly onto coordinate 0 when its pure translation is
+        # folded into the coordinates (pass 1 writes fx="0" or fy="0"; pass 2 has to read that as a focal point, not
+        # as "none given").  Chosen by a checksum of the document: no random draw is spent.
+        cxv, cyv = [(50, 50), (30.5, 40), (64, 20.25)][(h >> 3) % 3]
+        d = [8, 12.5, 5][(h >> 5) % 3]
+        on_y = (h >> 7) % 2 == 1
+        ga = {"id": "c07fp", "gradientUnits": "userSpaceOnUse", "cx": docs.fmt(cxv), "cy": docs.fmt(cyv), "r": "40"}
+        if on_y:
+            ga["fy"] = docs.fmt(cyv - d)
+            ga["gradientTransform"] = f"translate(7 {docs.fmt(-(cyv - d))})"
+        else:
+            ga["fx"] = docs.fmt(cxv - d)
+            ga["gradientTransform"] = f"translate({docs.fmt(-(cxv - d))} 8)"
+        grad = docs.node("radialGradient", ga, c=[docs.node("stop", {"offset": "0", "stop-color": "red"}), docs.node("stop", {"offset": "1", "stop-color": "blue"})])
+        root["c"].append(docs.node("defs", c=[grad]))
+        root["c"].append(docs.node("rect", {"x": "2", "y": "3", "width": "20", "height": "15", "fill": "url(#c07fp)"}))
+        case["feat"] = case["feat"] + ["focal-point-translated-onto-0"]
     case["svg"] = docs.serialize(root, root=True)
     return case
 
